@@ -11,6 +11,7 @@
 #define _GNU_SOURCE
 #include <setjmp.h>
 #include <signal.h>
+#include <stdio.h>
 #include <stdint.h>
 #include <stdlib.h>
 #include <string.h>
